@@ -51,6 +51,19 @@ def check_case(ctx, case):
     b = impl.canon_record(out << k, rid=3)
     if a.seq != b.seq or denot(a.feats, n) != denot(b.feats, n):
         ctx.fail("rc(r >> {0}) differs from rc(r) << {0}".format(k), case)
+    # what is carried over is chosen per kind, as in Biopython: features and per-letter values independently
+    if n >= 1:
+        track = [ctx.rng.randrange(50) for _ in range(n)]
+        rt = impl.mk_record(CRec(3, wd, feats, []), track=track)
+        only_f = rt.reverse_complement(letter_annotations=False)
+        if denot(impl.canon_record(only_f, rid=3).feats, n) != mirrored(d_in, n) or only_f.letter_annotations:
+            ctx.fail("reverse_complement(letter_annotations=False) should keep the (mirrored) features and drop "
+                     "the per-letter values: {} features, tracks {}".format(len(only_f.features),
+                                                                             sorted(only_f.letter_annotations)), case)
+        only_t = rt.reverse_complement(features=False)
+        if only_t.features or only_t.letter_annotations.get("track") != track[::-1]:
+            ctx.fail("reverse_complement(features=False) should drop the features and keep the per-letter values "
+                     "reversed", case)
     # the feature table is curated in place (same number of features), then reverse-complemented again
     if n >= 2 and rec.features:
         from Bio.SeqFeature import SeqFeature, SimpleLocation
